@@ -457,6 +457,26 @@ def do_pure(w, op):
                 tmp[(w.labels[0],)] += 1
             else:
                 ran = False
+        elif call == "logic_operand":
+            # logical constraint methods with a model (a boolean expression) as operand
+            if b and A.is_model and maxlen <= 2 and len(keys) <= 4 and nvars <= 3:
+                tmp = qv.PCBO()
+                l1, l2 = w.labels[0], w.labels[-1]
+                name = rnd.choice(["AND", "OR", "XOR", "NAND", "NOR", "XNOR", "eq_AND", "eq_OR", "eq_XOR", "NOT", "BUFFER", "eq_NOT", "eq_BUFFER"])
+                base = name[3:] if name.startswith("eq_") else name
+                if base in ("NOT", "BUFFER"):
+                    args = (o,) if not name.startswith("eq_") else rnd.choice([(o, l1), (l1, o)])
+                else:
+                    args = (o, l1) if not name.startswith("eq_") else rnd.choice([(o, l1, l2), (l1, o, l2)])
+                getattr(tmp, "add_constraint_" + name)(*args, lam=rnd.choice([1, 2]))
+                for lst in tmp._constraints.values():
+                    for c in lst:
+                        if c is o:
+                            w.fail("handout_aliases_model", "the recorded constraint IS the argument object")
+                        c[(l1,)] += 5
+                w.probe("as_logic_operand")
+            else:
+                ran = False
         elif call == "sat_operand":
             if b and A.is_model and maxlen <= 3 and len(keys) <= 8:
                 l = w.labels[-1]
@@ -478,7 +498,7 @@ def do_pure(w, op):
     except Violation:
         raise
     except Exception as e:
-        w.probe("pure_call_raised:" + call)
+        w.probe("pure_call_raised:%s:%s:%s:%s" % (call, A.t, type(e).__name__, str(e)[:50]))
     if x != x0 and call not in ():
         w.fail("argument_mutated", "%s changed the assignment passed to it" % where)
     after = w.snap(A)
